@@ -18,12 +18,19 @@ CHECKS = {
              "C01_compose_roundtrip (incl. the 'final only next to a label' normalisation), C01_release_roundtrip (release type "
              "case-folding is the identity on valid releases: every entry of the regenerated RELEASE_TYPES is lower case), "
              "C01_base_product_roundtrip, C01_paths_roundtrip (the per-architecture path tables of a variant are read back exactly: the truthy "
-             "entries for the variant's architectures, in the writer's order). The forest-level statement is decided "
-             "by the roundtrip_ci correspondence: every generated description is written, read and written again by the real "
-             "library and by the model, the text is compared byte for byte and an implementation-side oracle compares every "
-             "documented field, the parent/child structure and all paths with the documented normalisations.",
-        note="Partial: load_ci (dump_ci x) = Ok (norm x) over whole forests (the uid-keyed flattening) is not a Coq theorem; header, compose, "
-             "release, base-product sections and path tables are; C07_loaded_composeinfo_is_valid covers validity of every re-read variant.",
+             "entries for the variant's architectures, in the writer's order); and over whole forests of ANY depth, by induction on "
+             "the variant tree: C01_forest_written_exactly (the flat mapping holds exactly one entry per variant, keyed by UID, every "
+             "variant validated under its parent), C01_forest_roundtrip (the reader rebuilds the same forest: fields, parent/child "
+             "structure, layered releases, path tables as written), C01_document_roundtrip (load_ci (dump_ci x) = Ok x for the whole "
+             "document), C01_second_write_identical (dumping the re-read object gives the same document), "
+             "C01_reread_forest_is_normal, C01_roundtrip_hypotheses_reachable (a depth-3 forest with a layered product meets the "
+             "hypotheses). The tie of the model to the code is the roundtrip_ci correspondence: every generated description is "
+             "written, read and written again by the real library and by the model, the text is compared byte for byte and an "
+             "implementation-side oracle compares every documented field, the parent/child structure and all paths.",
+        note="Hypotheses of the forest theorems, stated in them: the object is in the normal form the reader itself builds (attributes in "
+             "canonical order, architecture sets sorted and all strings (K4: element types are not validated), children keyed by id in "
+             "increasing order, top level keyed by id and ordered by UID) and UIDs are pairwise distinct (one object filed twice is "
+             "observation O11). UID alignment of every parent/child pair is NOT assumed: it is derived from the regenerated validators.",
         design="DESIGN.md section 6 C01"),
     "C02": dict(
         text="Coq theorems C02_image_roundtrip / C02_image_roundtrip_fields (every image the library agrees to write is read back "
